@@ -14,7 +14,7 @@ func (g *Gen) writeCell(st *State, key, elemSort, a, v string) {
 	h := g.heap(st, key, elemSort)
 	g.setHeap(st, key, Term{sto(h.S, a, v), h.Sort})
 	if key == "H_Int_uint8" {
-		g.bytesFrame(st.heaps[key].S, h.S, "(or (= (elemArr "+a+") Nil) (not (= (sarr s) (elemArr "+a+"))))")
+		g.bytesFrame(st.heaps[key].S, h.S, "(or (not ((_ is Elem) "+a+")) (not (= (sarr s) (ebase "+a+"))))")
 	}
 	if g.wlog != nil {
 		g.wlog.add(g, key, elemSort, a, "")
@@ -53,6 +53,7 @@ func (fr *Frame) execInstr(ins ssa.Instruction, c *blockCtx) {
 		t := fr.define(ins, Term{obj, SRef})
 		g.freshNames[t.S] = true
 		g.zeroInit(c.st, t.S, ins.Type().Underlying().(*types.Pointer).Elem())
+		g.ghostInit(c.st, t.S, ins.Type().Underlying().(*types.Pointer).Elem())
 	case *ssa.FieldAddr:
 		x := fr.val(ins.X)
 		fr.safety("nil", c.reach, not(eq(x.S, "Nil")), ins)
@@ -866,4 +867,34 @@ func (g *Gen) bytesFrame(newHeap, oldHeap, unaffected string) {
 		return
 	}
 	g.sc.Assume(fmt.Sprintf("(forall ((s Slice)) (! (=> %s (= (bytesOf %s s) (bytesOf %s s))) :pattern ((bytesOf %s s))))", unaffected, newHeap, oldHeap, newHeap))
+}
+
+// ghostInit applies "ghost init T $f = e" declarations to a freshly allocated object of type T.
+func (g *Gen) ghostInit(st *State, addr string, t types.Type) {
+	n, ok := types.Unalias(t).(*types.Named)
+	if !ok || n.Obj().Pkg() == nil {
+		return
+	}
+	for _, gi := range g.W.inits {
+		ty, ok := g.tryResolve(gi.Pkg, gi.Type)
+		if !ok || ty.G == nil || !types.Identical(ty.G, t) {
+			continue
+		}
+		env := &Env{g: g, pkg: gi.Pkg, vars: map[string]Binding{}, st: st}
+		v, _ := env.tr(gi.E)
+		g.setGhost(st, gi.Field, addr, v.S)
+	}
+}
+
+func (g *Gen) tryResolve(pkg, ts string) (ty Ty, ok bool) {
+	defer func() {
+		if r := recover(); r != nil {
+			if _, is := r.(unsupported); is {
+				ok = false
+				return
+			}
+			panic(r)
+		}
+	}()
+	return g.W.resolveType(pkg, ts, g), true
 }
